@@ -57,11 +57,13 @@ type driver struct {
 	selectMaybe bool
 	errGate     bool
 	terminated  bool
+	gaveUp      bool // terminated set by the driver, not by the worker thread
 	awaitPark   bool
 	awaitAck    *execRec
 	views       map[*execRec]*execView
 	gate        chan struct{}
 
+	bcAddr        string // "%p" of the BuildClient, to find its goroutine in dumps
 	shutdownDone  bool
 	armedSteps    int
 	stepsAfter    int
@@ -116,7 +118,8 @@ func runCase(r *ev.Run, cfg caseCfg) {
 
 	ctx, cancel := context.WithCancel(context.Background())
 	m.stop = cancel
-	d := &driver{m: m, cfg: cfg, clk: clk, stop: cancel, views: map[*execRec]*execView{}, gate: make(chan struct{})}
+	bcAddr := fmt.Sprintf("%p", bc)
+	d := &driver{bcAddr: bcAddr, m: m, cfg: cfg, clk: clk, stop: cancel, views: map[*execRec]*execView{}, gate: make(chan struct{})}
 	// The action PRNG depends on the base only, so that variants of one base
 	// share their prefix up to the shutdown step.
 	d.rng = r.Rand(2, uint64(cfg.Base))
@@ -151,7 +154,7 @@ func runCase(r *ev.Run, cfg caseCfg) {
 	// Teardown: release everything that may still be parked.
 	close(m.abort)
 	cancel()
-	if cfg.Real && !d.terminated {
+	if cfg.Real && (!d.terminated || d.gaveUp) {
 		// Let the real loop run into its termination bound.
 		done := make(chan struct{})
 		go func() { wg.Wait(); close(done) }()
@@ -336,7 +339,9 @@ func (d *driver) stuckInStopExecution() bool {
 	buf = buf[:runtime.Stack(buf, true)]
 	var stuck string
 	for _, g := range strings.Split(string(buf), "\n\n") {
-		if strings.Contains(g, "(*BuildClient).stopExecution") && strings.Contains(strings.SplitN(g, "\n", 2)[0], "chan receive") {
+		// Only this case's own worker thread counts (other cases run in
+		// parallel): its frames carry the address of this BuildClient.
+		if strings.Contains(g, "(*BuildClient).stopExecution") && strings.Contains(g, d.bcAddr) && strings.Contains(strings.SplitN(g, "\n", 2)[0], "chan receive") {
 			stuck = g
 		}
 	}
@@ -352,8 +357,8 @@ func (d *driver) stuckInStopExecution() bool {
 	d.m.violation("preempted-action-never-cancelled trace-context="+trace,
 		fmt.Sprintf("the scheduler replaced execution %d, but the context given to its Execute call was not cancelled; BuildClient.Run is blocked forever in stopExecution waiting for the action to end by itself:\n%s", e.id, tail(stuck, 1500)))
 	d.m.mu.Unlock()
-	d.terminated = true // give up on this case; teardown releases everything
-	return false
+	d.terminated, d.gaveUp = true, true // give up on this case; teardown releases everything
+	return true
 }
 
 func tail(s string, n int) string {
@@ -539,7 +544,7 @@ func (d *driver) step() {
 				d.m.violation("no-termination-after-scheduler-acknowledged-idle", fmt.Sprintf("after shutdown the scheduler answered %d requests with 'idle', the worker thread still synchronizes", d.windReplies-1))
 				d.m.mu.Unlock()
 				d.inconclusive = ""
-				d.terminated = true // give up on this case
+				d.terminated, d.gaveUp = true, true // give up on this case
 				return
 			}
 			d.sendReply("idle")
